@@ -52,6 +52,9 @@ package mhprimary
 //@   invariant @handles self.file != nil && self.writer != nil
 //@   invariant @config self.maxFileSize > 0 && self.maxFileSize <= (1 << 30) && self.length < (1 << 33)
 //@   invariant @gc-channels self.gc != nil && !self.closed ==> self.gc.stop != nil && !closed(self.gc.stop)
+//@   invariant @pools self.nextPool.refs != nil && self.curPool.refs != nil && self.nextPool.refs != self.curPool.refs && self.recPos < (1 << 33)
+//@   invariant @next-refs forall k int :: mhas(self.nextPool.refs, k) ==> 0 <= mget(self.nextPool.refs, k) && mget(self.nextPool.refs, k) < len(self.nextPool.blocks)
+//@   invariant @cur-refs forall k int :: mhas(self.curPool.refs, k) ==> 0 <= mget(self.curPool.refs, k) && mget(self.curPool.refs, k) < len(self.curPool.blocks)
 
 //@ macro PS(mp) = as(primary.PrimaryStorage, mp)
 
@@ -102,3 +105,39 @@ package mhprimary
 
 //@ func (mp *MultihashPrimary) NewIndexRemapper() (r *IndexRemapper, err error)  property C16
 //@   exclusive only called from index.Open while the store is being opened, before any goroutine is started
+
+// Put (C01 mechanism 3, C07): the location handed to the index is where flushBlock will write
+// the record: both use roll(cursor). The location decodes back to (file, offset), which needs
+// the record to start below the limit (roll guarantees it).
+//@ func (cp *MultihashPrimary) Put(key []byte, value []byte) (blk types.Block, err error)  property C01 C07
+//@   define P0() = rollp(old(cp.recPos), old(cp.recFileNum), cp.maxFileSize)
+//@   define F0() = rollf(old(cp.recPos), old(cp.recFileNum), cp.maxFileSize)
+//@   preserves cp
+//@   local requires len(key) + len(value) < (1 << 31) && cp.outstandingWork < (1 << 62)
+//@   modifies cp.recPos, cp.recFileNum, cp.nextPool.blocks, mapof(cp.nextPool.refs), elems(cp.nextPool.blocks), cp.outstandingWork
+//@   ensures @ok err == nil
+//@   ensures @predicted blk.Offset == ppos(F0(), cp.maxFileSize, P0()) && blk.Size == len(key) + len(value)
+//@   ensures @same-rule-as-writer P0() < cp.maxFileSize
+//@   ensures @decodes pfile(blk.Offset, cp.maxFileSize) == F0() && ploc(blk.Offset, cp.maxFileSize) == P0()
+//@   ensures @advance cp.recFileNum == F0() && cp.recPos == P0() + 4 + len(key) + len(value)
+//@   ensures @pooled len(cp.nextPool.blocks) == old(len(cp.nextPool.blocks)) + 1 && cp.nextPool.blocks[old(len(cp.nextPool.blocks))].key == key && cp.nextPool.blocks[old(len(cp.nextPool.blocks))].value == value && (blk in cp.nextPool.refs) && cp.nextPool.refs[blk] == old(len(cp.nextPool.blocks))
+//@   ensures @kept forall i int :: 0 <= i && i < old(len(cp.nextPool.blocks)) ==> cp.nextPool.blocks[i] == old(cp.nextPool.blocks[i])
+
+// getCached / Get (C01): a record still in a pool is returned from the pool with exactly the
+// key and value that were put, including nil and empty values.
+//@ func (cp *MultihashPrimary) getCached(blk types.Block) (key []byte, value []byte, err error)  property C01
+//@   preserves cp
+//@   ensures @next (blk in cp.nextPool.refs) ==> err == nil && key == cp.nextPool.blocks[cp.nextPool.refs[blk]].key && value == cp.nextPool.blocks[cp.nextPool.refs[blk]].value
+//@   ensures @cur !(blk in cp.nextPool.refs) && (blk in cp.curPool.refs) ==> err == nil && key == cp.curPool.blocks[cp.curPool.refs[blk]].key && value == cp.curPool.blocks[cp.curPool.refs[blk]].value
+//@   ensures @miss !(blk in cp.nextPool.refs) && !(blk in cp.curPool.refs) ==> key == nil && value == nil
+
+//@ func (cp *MultihashPrimary) Get(blk types.Block) (key []byte, value []byte, err error)  property C01
+//@   preserves cp
+//@   local requires @size-in-range blk.Size < (1 << 31)
+//@   modifies fp(FC)
+//@   ensures @pooled-next (blk in cp.nextPool.refs) && cp.nextPool.blocks[cp.nextPool.refs[blk]].key != nil ==> err == nil && key == cp.nextPool.blocks[cp.nextPool.refs[blk]].key && value == cp.nextPool.blocks[cp.nextPool.refs[blk]].value
+//@   ensures @pooled-cur !(blk in cp.nextPool.refs) && (blk in cp.curPool.refs) && cp.curPool.blocks[cp.curPool.refs[blk]].key != nil ==> err == nil && key == cp.curPool.blocks[cp.curPool.refs[blk]].key && value == cp.curPool.blocks[cp.curPool.refs[blk]].value
+
+//@ func readNode(data []byte) (mh multihash.Multihash, val []byte, err error)
+//@   trusted go-multihash reader (dependency): a well-formed multihash at the start of data is consumed exactly
+//@   ensures err == nil ==> mh != nil && len(mh) + len(val) == len(data) && bytes(mh) == bytes(data)[:len(mh)] && bytes(val) == bytes(data)[len(mh):]
